@@ -39,14 +39,15 @@ func init() {
 }
 
 type c09rx struct {
-	kind     int
-	primary  rtp.Depacketizer // long-lived, fed from recycled buffers
-	shadow   rtp.Depacketizer // same type, fed pristine private copies (stateful kinds only)
-	stateful bool
-	pool     *rxPool
-	hadFail  bool
-	pendingS bool // a fragment train was left open by the last packet
-	fp       []uint64
+	kind             int
+	primary          rtp.Depacketizer // long-lived, fed from recycled buffers
+	shadow           rtp.Depacketizer // same type, fed pristine private copies (stateful kinds only)
+	stateful         bool
+	pool             *rxPool
+	hadFail          bool
+	pendingS         bool // a fragment train was left open by the last packet
+	vp9NoPDiffBefore bool
+	fp               []uint64
 }
 
 // isStatefulKind: the kinds whose retained state the statement requires to be owned
@@ -159,6 +160,13 @@ func c09deliver(c *core.Ctx, rx *c09rx, d datagram, loop *core.Loop) {
 	}
 	if err == nil && rx.hadFail {
 		c.Probe("success-after-failure")
+	}
+	if (rx.kind == kVP9 || rx.kind == kVP9Flex) && err == nil && len(private) > 0 {
+		fp := private[0]&0x50 == 0x50 // F and P: reference indices present
+		if fp && rx.vp9NoPDiffBefore {
+			c.Probe("vp9-pdiff-after-none")
+		}
+		rx.vp9NoPDiffBefore = !fp
 	}
 	if err != nil {
 		rx.hadFail = true
